@@ -92,10 +92,18 @@ impl ServerInvTsx {
             CodeKind::Provisional | CodeKind::Success
         ));
 
-        // after this instant is over the tsx will time out
+        let reliable = response.parts.transport.reliable();
+
+        // send the response right away
+        self.registration
+            .endpoint
+            .send_outgoing_response(&mut response)
+            .await?;
+
+        // after this instant is over the tsx will time out (timer H)
         let abandon_retransmit = Instant::now() + T1 * 64;
 
-        // the duration to wait until next retransmit
+        // the duration to wait until next retransmit (timer G)
         let mut retransmit_delta = T1;
 
         // timestamp for next retransmit
@@ -103,7 +111,14 @@ impl ServerInvTsx {
 
         // wait for ack and retransmit if necessary
         loop {
-            match timeout_at(retransmit.into(), self.registration.receive()).await {
+            // reliable transports never retransmit, they only wait for the ACK
+            let deadline = if reliable {
+                abandon_retransmit
+            } else {
+                retransmit.min(abandon_retransmit)
+            };
+
+            match timeout_at(deadline.into(), self.registration.receive()).await {
                 Ok(inc_msg) => {
                     // two things are allowed to happen here
                     // 1 - the transaction receives a retransmission of the initial invite
@@ -127,9 +142,9 @@ impl ServerInvTsx {
                     }
                 }
                 Err(_) => {
-                    // retransmit timeout triggered
+                    // timer triggered
 
-                    if Instant::now() > abandon_retransmit {
+                    if deadline >= abandon_retransmit {
                         return Err(Error::RequestTimedOut);
                     }
 
@@ -143,7 +158,7 @@ impl ServerInvTsx {
                     retransmit_delta = (retransmit_delta * 2).min(T2);
 
                     // set next timestamp
-                    retransmit = Instant::now() + retransmit_delta;
+                    retransmit = deadline + retransmit_delta;
                 }
             }
         }
